@@ -119,7 +119,14 @@ Proof. repeat split; vm_compute; reflexivity. Qed.
 Example ex_numeric_string_thm :
   run_items true [IDir (plain 100)] [AConv [52;50] (Some (NFin false 21 1))]
   = run_items true [IDir (plain 100)] [ANum (NFin false 21 1)].
-Proof. apply (format_numeric_string true (plain 100) [52;50] (NFin false 21 1) [] []). reflexivity. Qed.
+Proof. apply (format_numeric_string true (plain 100) [52;50] (NFin false 21 1) [] []); reflexivity. Qed.
+(* "%v" raises; "%u" of -1 is 2^64-1 *)
+Example ex_invalid_option : valid_verb (d_verb (plain 118)) = false /\ format true [37;118] [zarg 5] = FErr.
+Proof. split; vm_compute; reflexivity. Qed.
+Example ex_invalid_option_thm : run_items true [IDir (plain 118)] [zarg 5] = FErr.
+Proof. apply format_invalid_option. reflexivity. Qed.
+Example ex_u : fmt_dir true (plain 117) (zarg (-1)) = Some [49;56;52;52;54;55;52;52;48;55;51;55;48;57;53;53;49;54;49;53].
+Proof. vm_compute. reflexivity. Qed.
 (* exact decimal expansion with round-half-even: %.0f of 0.5, 1.5, 2.5; %.3f of 2.0005; %e of 5e-324 *)
 Example ex_float :
   fmt_dir false (mkD false false false false false None (Some 0) 102) (ANum (NFin false 1 (-1))) = Some [48] /\
